@@ -8,6 +8,7 @@ import SIM.Driver.Codec
 import SIM.Driver.Registry
 import SIM.Driver.Retain
 import SIM.Driver.Json
+import SIM.Driver.Build
 open SIM SIM.Driver
 
 def dispatch (stream : String) (toks : List String) : Verdict :=
@@ -19,6 +20,7 @@ def dispatch (stream : String) (toks : List String) : Verdict :=
   | "registry" => runP registry toks
   | "retain" => runP retain toks
   | "json" => runP json toks
+  | "build" => runP build toks
   | _ => .unmodelled ("unknown stream " ++ stream)
 
 partial def loop (h : IO.FS.Stream) (out : IO.FS.Stream) : IO Unit := do
